@@ -35,11 +35,13 @@ def _real_seq(conn, dict_cursor: bool, ops: list[str]) -> list[str]:
             k = op[0]
             if k == "x":
                 cur.execute(f"select x from t where x < {int(op[1:])} order by x")
-                out.append("u")
+                out.append("u" if cur.rowcount == int(op[1:]) else f"X:rowcount {cur.rowcount} after a result of {int(op[1:])} rows")
             elif k == "y":
-                # statements answering with one status row: a nop_regexes match (900) / an INSERT of one row (1)
-                cur.execute("call some_proc(1)" if op == "y900" else "insert into t2 values (5)")
-                out.append("u")
+                # statements answering with one status row: a nop_regexes match (900) / an INSERT of one row (1) /
+                # a DELETE affecting no row (0); rowcount must agree with the count the status row carries
+                cur.execute({"y900": "call some_proc(1)", "y1": "insert into t2 values (5)", "y0": "delete from t2 where x = -1"}[op])
+                want = {"y900": 1, "y1": 1, "y0": 0}[op]
+                out.append("u" if cur.rowcount == want else f"X:rowcount {cur.rowcount} after a statement whose status row says {want}")
             elif k == "o":
                 r = cur.fetchone()
                 out.append("n" if r is None else f"r{enc_row(r)}")
@@ -127,10 +129,10 @@ def _cases(chk) -> list:
     chk.extra["exhaustive_part"] = f"all sequences x<n>·{{{','.join(FETCH)}}}^≤{maxlen} for n=0..{MAXROWS}: {len(seqs)}"
     # random long sequences with re-executes in the middle
     nrand = 1500 if chk.tier == "quick" else 40000
-    alphabet = FETCH + ["m4", "m5", "m7", "s4", "s5", "y900", "y1"] + [f"x{n}" for n in range(MAXROWS + 1)]
+    alphabet = FETCH + ["m4", "m5", "m7", "s4", "s5", "y900", "y1", "y0"] + [f"x{n}" for n in range(MAXROWS + 1)]
     # every fetch/arraysize pair between a result and a following one-row status statement (nop match / INSERT)
     for n in (0, 2, 5):
-        for y in ("y900", "y1"):
+        for y in ("y900", "y1", "y0"):
             for L in range(0, 3):
                 for t in itertools.product(FETCH, repeat=L):
                     for t2 in (["o", "o"], ["a", "o"], ["m2", "a"]):
